@@ -48,6 +48,7 @@ def main():
     ap.add_argument('--replay')
     ap.add_argument('--procs', type=int, default=16)
     ap.add_argument('--verbose', action='store_true')
+    ap.add_argument('--write-baseline', action='store_true', help='record the obligations proved on the current tree')
     args = ap.parse_args()
     seed = int(os.environ.get('VERIF_SEED', '0'))
 
@@ -149,8 +150,8 @@ def main():
     bounded_info = {}
     for (cname, recv), items in open_keys.items():
         bd = P.get('bounds', {}).get(cname, {})
-        req = {'mode': 'enum', 'contract': cname, 'receiver': recv, 'bounds': bd, 'limit': 60000 if args.tier == 'quick' else 600000,
-               'seed': seed}
+        req = {'mode': 'enum', 'contract': cname, 'receiver': recv, 'bounds': bd, 'limit': 30000 if args.tier == 'quick' else 400000,
+               'random': 40000 if args.tier == 'quick' else 400000, 'seed': seed}
         res = harness(req, timeout=900)
         bounded_info[cname] = {k: res.get(k) for k in ('evaluations', 'in_domain', 'exhaustive', 'bounds', 'status')}
         fails = res.get('failures') or []
@@ -166,6 +167,8 @@ def main():
         if key in confirmed_keys:
             continue
         bid = '%s/%s' % (r['contract'], o['id'])
+        if any(c == r['contract'] for c, _ in confirmed_keys):
+            continue        # a failing input for this function was already found and replayed
         if bid in baseline.get(prop, []) and not o.get('incomplete'):
             confirmed_keys.add(key)
             violations.append({'contract': r['contract'], 'obligation': o['id'], 'case': r['case'], 'model': o.get('model'),
@@ -181,7 +184,12 @@ def main():
             kf_reported.add(k['id'])
             lines.append('KNOWN-FINDING: property=%s %s' % (prop, k['what']))
     final_viol = []
+    seen_v = set()
     for v in violations:
+        k = (v['contract'], v['obligation'])
+        if k in seen_v:
+            continue
+        seen_v.add(k)
         final_viol.append(v)
     for i, v in enumerate(final_viol):
         fn = v['contract'].split('.')[-1]
@@ -200,6 +208,21 @@ def main():
     level = 'proof'
     if und_keys or unsupported:
         level = 'exploration'
+
+    if args.write_baseline:
+        base = load_baseline()
+        base[prop] = sorted({'%s/%s' % (r['contract'], o['id']) for r in results for o in r['obligations']
+                             if o['status'] == 'proved' and tagged(o['id'])})
+        json.dump(base, open(os.path.join(HERE, 'baseline_obligations.json'), 'w'), indent=0, sort_keys=True)
+    else:
+        base = load_baseline().get(prop)
+        if base is not None:
+            now = {'%s/%s' % (r['contract'], o['id']) for r in results for o in r['obligations'] if tagged(o['id'])}
+            missing = sorted(set(base) - now)
+            if missing and not unsupported:
+                # an obligation that existed on the baseline is no longer generated and nothing was
+                # reported as unsupported: the source changed shape; say so (not an alarm)
+                print('NOTE: %d baseline obligations were not generated on this tree (e.g. %s)' % (len(missing), missing[0]))
 
     # vacuity guards
     if obligations == 0:
